@@ -310,6 +310,19 @@ def main():
     if hasattr(prop, "demonstrate_known") and not args.replay:
         known_lines.extend(prop.demonstrate_known(known, evaluate))
 
+    # ---- 6b. statement coverage of the property's anchored files by a sample of the cases (informational, in the evidence)
+    anchors = []
+    try:
+        for l in open(os.path.join(VERIF, "properties.jsonl")):
+            pj = json.loads(l)
+            if pj["id"] == pid:
+                anchors = [f for f in pj.get("anchors", {}).get("files", []) if f.endswith(".py")]
+    except Exception:
+        pass
+    if not args.replay and anchors:
+        cases_s = [units.impl_case(u["kind"], u["params"]) if "impl" not in u else u["impl"] for u in us]
+        oc.anchor_coverage = runner.coverage_sample(cases_s, anchors)
+
     # ---- 7. evidence
     wall = time.time() - t_start
     if not args.replay:
